@@ -8,7 +8,7 @@ MODULE = "Poupool.Properties.C17"
 
 def run(chk):
     ac.run_actor_property(chk, MODULE, THEOREMS, monitor_pids=["C17"], extra=globals().get("extra"))
-    ac.dispatch_facts(chk, ['C14_fact_methods', 'C14_fact_modes'])
+    ac.dispatch_facts(chk, ['C14_fact_routing', 'C14_fact_modes'])
     ac.responsiveness(chk, ['Filtration', 'Swim'])
     from checks import altcfg as _alt
     _alt.binding(chk, ['wintering'])
